@@ -91,4 +91,20 @@ theorem C12_wait_after_stopped (p : Pool) (t : Nat) (hs : p.state = .stopped)
 example : (stop (submit { maxSize := 1 } [.ret 5] 0).1).2 = false := by decide
 example : ((pass (stop (submit { maxSize := 1 } [.ret 5] 0).1).1).map (fun p => (stop p).2)) = some true := by decide
 
+/-- A task that submits to its own pool from inside its body is treated like any other submitter:
+once stopping has begun the submission is rejected and the task queue is untouched — in particular
+while `stop` drains the tasks that were accepted before it. -/
+theorem C12_nested_submission_rejected (p : Pool) (t : Nat) (h : p.state ≠ .running) :
+    (nestSubmit p t).tasks = p.tasks ∧ (nestSubmit p t).nested = p.nested ++ [(t, false)] ∧
+    (nestSubmit p t).state = p.state := by
+  unfold nestSubmit
+  split
+  · rename_i hs; exact absurd hs h
+  · exact ⟨rfl, rfl, rfl⟩
+
+/-- …and while the pool is running it is accepted and queued exactly once. -/
+theorem C12_nested_submission_accepted (p : Pool) (t : Nat) (h : p.state = .running) :
+    (nestSubmit p t).tasks = p.tasks.push 0 p.progs.length ∧ (nestSubmit p t).nested = p.nested ++ [(t, true)] := by
+  unfold nestSubmit; simp [h]
+
 end Oc.Props.C12
